@@ -494,7 +494,9 @@ func (p *ServiceProcessor) ProcessClientStreamRequest(req *http.Request, path st
 
 	go func() {
 		ended := false
-		forwarded := make(map[uintptr]bool)
+		// keyed by the channel itself, not by its address: the entry keeps the
+		// channel alive, so a later channel can never be mistaken for it
+		forwarded := make(map[interface{}]bool)
 		for buf := range clientInputs {
 			verifC15Point("adapter-receive", buf)
 			if ended {
@@ -532,8 +534,8 @@ func (p *ServiceProcessor) ProcessClientStreamRequest(req *http.Request, path st
 			// of a stream: it is forwarded by one routine only, otherwise
 			// its messages could overtake each other.
 			inChan := reflect.ValueOf(reply)
-			known := forwarded[inChan.Pointer()]
-			forwarded[inChan.Pointer()] = true
+			known := forwarded[reply]
+			forwarded[reply] = true
 
 			outLock.Lock()
 			refused := outClosed
